@@ -12,7 +12,7 @@ def check_instance(inst, F, ctx, extra):
     V = View(inst, I, F)
     checked = {}
     did = False
-    it = I.assoc_fn('as_str')
+    it = I.require_fn(ctx, 'as_str')
     if it is not None:
         did = True
         checked[it['path']] = check_as_str(inst, V, ctx, I.body(it['path']), 'as_str')
